@@ -155,3 +155,13 @@ def gen_cases(rng, tier):
 
 def nontrivial(payload, md):
     return md.get('st') == 'ok' or ('packed' in md and md['packed'] != 'none')
+
+LEVEL_TEXT = ('Coq theorems over an executable model of the RDM codec (all decoders total and free of '
+              'out-of-range reads; acceptance conditions; pack/inflate round trip for every well-formed command; '
+              'canonical frames re-pack to the same bytes; request/response matching statuses), for all byte '
+              'strings and all command values; model tied to the C++ by a differential correspondence check '
+              '(ASan/UBSan build of /repo working tree) and constants/offsets regenerated from the headers.')
+LEVEL_NOTE = ('Trusted: Coq kernel, extraction (ExtrOcamlBasic), OCaml/C++ glue, generator coverage of the '
+              'correspondence; model = code is validated by differential testing, not proved.')
+TECHNIQUE = 'Coq proof on hand-written executable model + extracted-model/implementation differential correspondence'
+DESIGN_REF = 'DESIGN.md §4 C05'
